@@ -24,6 +24,10 @@ CHECKS = {
          "proof", "Completeness (meaning => exists aux. asserted set) of every task, assignment, task-constraint and resource-constraint encoder under contract, with auxiliary unknowns existential; known incompletenesses are carved out as regions in known_findings.json and must stay the only failing regions", "4/C05"),
  "C06": ("contract-based deductive verification: 'scheduled = mandatory' and 'left out = deleted' obligations per encoder, z3",
          "proof", "For each encoder that can name an optional task: soundness guarded by the scheduled flags, completeness with the task left out (witness at the conventional point), the four optional-task rules and their rejections", "4/C06"),
+ "C10": ("contract-based deductive verification: each connective's assertion proved equivalent to the Boolean combination of its operands' own assertion sets; frame and non-enforcement obligations on initialize",
+         "proof", "Equivalence contracts for Not/And/Or/Xor/Implies/IfThenElse over raw, single-assertion, multi-assertion and nested operands; optional constraints compared with their mandatory twin (Implies(applied, phi)); ForceApplyN count; ConstraintFromExpression", "4/C10"),
+ "C18": ("contract-based deductive verification: raises_iff obligations over symbolic parameters, acceptance predicate read from the real pydantic field declarations",
+         "proof", "For each constructor the listed ill-formedness conditions are proved to raise on every path and every well-formed input to be accepted (an unannounced exception on any path of any contract fails an obligation)", "4/C18"),
 }
 NOT_YET = {}
 
